@@ -43,63 +43,63 @@ CHECKS = {
     "C03": {
         "engine": "E1+E4",
         "technique": "abstract interpretation of every Quantity operator to a normal form of its physical value (units-of-measure typing + polynomial normalisation); AST shape rule on the Decimal helpers; mypy-typed lint; CFG dominance of the dimension gates",
-        "level_text": "For every operator arm the result's physical value and dimension component are compared with the operation applied to the operands' values, for all operands at once; result kind, left-unit, Decimal discipline and gate dominance are structural rules. All obligations are discharged except Quantity.__rtruediv__ (keeps the unit), a genuine defect pinned by the suite and recorded as a known finding - hence 'other'.",
+        "level_text": "For every operator arm the result's physical value and dimension component are compared with the operation applied to the operands' values, for all operands at once; result kind, left-unit, Decimal discipline and gate dominance are structural rules. All obligations are discharged except Quantity.__rtruediv__ (keeps the unit), a genuine defect pinned by the suite and recorded as a known finding - hence 'other'. Every further arithmetic hook Quantity defines is decided by its family (R03.8): an alias only for the reflected form of a commutative operator, additive hooks (%, divmod's remainder, in-place + and -) must take the right operand itself through the dimension gate.",
         "design_ref": "DESIGN.md section 4, C03",
         "level_note": E4_NOTE + " Axioms: in_unit is value-preserving (C04); unit operators are the group operations (C02). Not decided: complex roots of negative magnitudes, float overflow.",
     },
     "C05": {
         "engine": "E1+E4+E5",
         "technique": "abstract interpretation of the table stores in equate/translate (orientation and reciprocity as normal-form identities), def-use rules on convert (affine, magnitude-independent, requested unit), shape rules on the path search, declared-data table from E5",
-        "level_text": "Decides the structural half of the property for all inputs: stored directions are mutual inverses and oriented as [from][to] = v(from)/v(to); for fixed units convert is m -> A*m + B with A, B independent of m and returns the requested unit; the search reads both tables in one direction and orders hops; declared ratios are positive and offset scales are leaves (so B = 0 between offset-free units). Numerical agreement of routes is NOT decided (needs C04 and C09).",
+        "level_text": "Decides the structural half of the property for all inputs: stored directions are mutual inverses and oriented as [from][to] = v(from)/v(to); for fixed units convert is m -> A*m + B with A, B independent of m and returns the requested unit; the search reads both tables in one direction and orders hops; declared ratios are positive and offset scales are leaves (so B = 0 between offset-free units). Numerical agreement of routes is NOT decided (needs C04 and C09). _inline_paths is element-wise and append-only (R05.10); the exponent a matched or cancelled factor is applied with agrees with the dimension _splat files it under, decided by partial evaluation of the sign computation on the three sign patterns of a base dimension (R05.11).",
         "design_ref": "DESIGN.md section 4, C05",
         "level_note": E4_NOTE + " Not decided: round-trip / route-independence numerics; exponent handling of multi-hop paths between powers of units (planner heuristics).",
     },
     "C16": {
         "engine": "E6",
         "technique": "translation validation: the grammar is compiled with Lark as the Makefile does; terminals, rules (up to renaming of generated helper nonterminals), options and the LALR automaton (isomorphism by BFS from the start states) are compared with the tables extracted from _parser.py by an AST literal evaluator",
-        "level_text": "Same terminals, same rules including tree-shaping options, and isomorphic LALR tables run by the same table-driven runtime accept the same language and build the same trees, for every input string and both start symbols; the embedded lexer is shown to consume input only through the scanner built from that terminal table (R16.7), the LALR driver to read actions and gotos from those tables (R16.8), and 191 of the 250 functions of the embedded runtime are AST-identical to the installed Lark's source (R16.9); the 59 that differ between the two Lark versions and the module/class skeleton are compared with the generator's pinned output while the embedded version string is unchanged (R16.10), and no module assigns into the generated parser module (R16.11). Complete for the language question given the trusted embedded runtime; no input is parsed.",
+        "level_text": "Same terminals, same rules including tree-shaping options, and isomorphic LALR tables run by the same table-driven runtime accept the same language and build the same trees, for every input string and both start symbols; the embedded lexer is shown to consume input only through the scanner built from that terminal table (R16.7), the LALR driver to read actions and gotos from those tables (R16.8), and 191 of the 250 functions of the embedded runtime are AST-identical to the installed Lark's source (R16.9); the 59 that differ between the two Lark versions and the module/class skeleton are compared with the generator's pinned output while the embedded version string is unchanged (R16.10), and no module assigns into the generated parser module (R16.11). Complete for the language question given the trusted embedded runtime; no input is parsed. Tables shipped in the generator's compressed form (base64 / zlib / pickle of plain data) are decoded as data - any class reference in the pickle is refused - and compared like the literal form.",
         "design_ref": "DESIGN.md section 4, C16",
         "level_note": "Trusted: the 59 functions of the embedded Lark 1.1.2 runtime that differ from Lark 1.3.1 (sa/data/lark_runtime_residue.json; no reference copy of 1.1.2 offline), Lark 1.3.1 as grammar compiler and as reference source. Serialisation fields only one version has are skipped and named in the evidence.",
     },
     "C17": {
         "engine": "E1+E2/E3+E6",
         "technique": "callback coverage against the shipped grammar tables; context-pruned reachability from the transformer callbacks; explicit-raise closure against KeyError / LarkError subclasses (hierarchy read from _parser.py's AST); interprocedural catch-and-convert rule for int() of unbounded tokens; who-may-write on the registries; memo-key lint",
-        "level_text": "Every grammar rule has a callback; on the functions reachable from the callbacks the only exception classes that can escape through raise statements are KeyError and LarkError subclasses; the three int() conversions of unbounded digit tokens are caught and re-raised as ParseError (one fix: commit), and a table of other library calls that are partial on text (unicodedata.name, Decimal, next, str.index ...) is applied to the parser zone; a bare builtin magnitude callback must be fed by Lark's standard number terminal (R17.6); no reachable function writes a name/symbol registry or imports a declaring module; magnitudes come from the builtin int/float; no memo on the path is keyed by a number or reads the registries. Lexing/parsing failures inside the embedded Lark runtime are the trusted base.",
+        "level_text": "Every grammar rule has a callback; on the functions reachable from the callbacks the only exception classes that can escape through raise statements are KeyError and LarkError subclasses; the three int() conversions of unbounded digit tokens are caught and re-raised as ParseError (one fix: commit), and a table of other library calls that are partial on text (unicodedata.name, Decimal, next, str.index ...) is applied to the parser zone; a bare builtin magnitude callback must be fed by Lark's standard number terminal (R17.6); no reachable function writes a name/symbol registry or imports a declaring module; magnitudes come from the builtin int/float; no memo on the path is keyed by a number or reads the registries. Lexing/parsing failures inside the embedded Lark runtime are the trusted base. The callbacks of the shared module-level transformer keep no state on it (R17.7: the same text parses the same whatever was parsed or rejected before), and nothing on the parse path issues a warning (R17.8: a warning leaves parse() as an exception of its category wherever warnings are escalated).",
         "design_ref": "DESIGN.md section 4, C17",
         "level_note": "Trusted: the embedded Lark runtime raises only LarkError subclasses; mypy call resolution; Any-typed arguments conform to annotations. Not decided: implicit exceptions of builtins outside the partial-call table (float('1e999') is inf).",
     },
     "C19": {
         "engine": "E1+E2+E5",
         "technique": "interprocedural write-then-raise analysis on statement CFGs of the definition entry points (summaries of may-write-naming / may-raise per callee); dominance of raising guards over registry bindings; constructor early-return rule; creation trace and registries from the declaration evaluator under every entry module; memo-over-registry rule",
-        "level_text": "A failing definition leaves the registries untouched iff no raise is reachable after a naming write on any path through the entry point and its callees; a name is never bound to two objects iff every binding is dominated by a raising test and the shipped tables have no duplicates; a declared name survives an earlier anonymous construction iff the declaring constructor registers late names; a rejected constructor call leaves no half-built or prematurely initialised instance in the intern table (R19.7/R19.8, must-assign analysis on the CFG of __init__); no shipped dimension is declared under two names (R19.9); named(name) is the name registry's entry (R19.10); no assert in naming functions (R19.11); registries are plain dicts (R19.12); Dimension.scale is an entry point with summaries computed over the context-pruned reachable set. All decided structurally and, for the shipped configuration, exhaustively; discharged after six fix: commits.",
+        "level_text": "A failing definition leaves the registries untouched iff no raise is reachable after a naming write on any path through the entry point and its callees; a name is never bound to two objects iff every binding is dominated by a raising test and the shipped tables have no duplicates; a declared name survives an earlier anonymous construction iff the declaring constructor registers late names; a rejected constructor call leaves no half-built or prematurely initialised instance in the intern table (R19.7/R19.8, must-assign analysis on the CFG of __init__); no shipped dimension is declared under two names (R19.9); named(name) is the name registry's entry (R19.10); no assert in naming functions (R19.11); registries are plain dicts (R19.12); Dimension.scale is an entry point with summaries computed over the context-pruned reachable set. All decided structurally and, for the shipped configuration, exhaustively; discharged after six fix: commits. An interning __new__ whose __init__ registers names on initialised instances returns only the object of the call's own key, never one fetched from a name registry (R19.13).",
         "design_ref": "DESIGN.md section 4, C19",
         "level_note": "Trusted: mypy call resolution; E5's declaration model. That the intern table keeps an anonymous, fully built instance after a failing definition is accepted (indistinguishable from an earlier anonymous construction); Dimension.scale's translate() guard is infeasible for a fresh unit and is not an entry.",
     },
     "C20": {
         "engine": "E1+E2",
         "technique": "typestate-style structural rule on the interning constructors (membership test and insertion in one atomic section: common module-level lock or returned dict.setdefault), who-may-write on the intern tables, effect check on the lru_cache'd helpers",
-        "level_text": "All threads obtain one object and the registry keeps one entry under every interleaving iff test-and-insert is a single atomic step in each of the three constructors and nothing else writes the tables; decided on the shape of Dimension/Prefix/Unit.__new__ (setdefault idiom after one fix: commit), with the memoised helpers and everything they call shown free of shared effects apart from interning (class-level scratch containers count), and the intern tables shown to be builtin dicts (R20.4). Schedules are not enumerated: the argument is that no interleaving point exists between test and insert.",
+        "level_text": "All threads obtain one object and the registry keeps one entry under every interleaving iff test-and-insert is a single atomic step in each of the three constructors and nothing else writes the tables; decided on the shape of Dimension/Prefix/Unit.__new__ (setdefault idiom after one fix: commit), with the memoised helpers and everything they call shown free of shared effects apart from interning (class-level scratch containers count), and the intern tables shown to be builtin dicts (R20.4). Schedules are not enumerated: the argument is that no interleaving point exists between test and insert. In the three __init__ methods every attribute an intern key is built from is assigned once on each path: an interned object is visible to other threads before __init__ runs, and __init__ is re-run on it by every thread that got it early (R20.5).",
         "design_ref": "DESIGN.md section 4, C20",
         "level_note": "Trusted: CPython's GIL makes dict.setdefault on C-hashed keys atomic; functools.lru_cache is thread-coherent. Not decided: visibility of a partially initialised object between __new__ and __init__; free-threaded builds.",
     },
     "C18": {
         "engine": "E1+E4+E5",
         "technique": "abstract interpretation of LogarithmicUnit.level and Level.quantify to normal forms with ln/exp heads, compared with the logarithmic definition; units-of-measure typing of the log argument; structural rules; declared bases from E5",
-        "level_text": "level() normalises to (k/p)*log_B(val(q)/val(ref)) and quantify() to B**(L*p/k)*ref for symbolic base, prefix, power ratio, reference and units, so the two directions are mutually inverse and the level is increasing for B > 1 (all declared bases are). The log argument is shown dimensionless, the reference unprefixed, k in {1,2} by membership, and Logarithm / LogarithmicUnit are interned under keys that determine their defining arguments exactly (R18.7); membership in ROOT_POWER_DIMENSIONS cannot go stale (R18.8) and the table has no entry written twice (R18.9); a pickle hook on Logarithm/LogarithmicUnit covers its interning key (R18.10); Level.__init__ keeps what it is given (R18.11); Prefix.quantify is base**exponent (R11.2, shared).",
+        "level_text": "level() normalises to (k/p)*log_B(val(q)/val(ref)) and quantify() to B**(L*p/k)*ref for symbolic base, prefix, power ratio, reference and units, so the two directions are mutually inverse and the level is increasing for B > 1 (all declared bases are). The log argument is shown dimensionless, the reference unprefixed, k in {1,2} by membership, and Logarithm / LogarithmicUnit are interned under keys that determine their defining arguments exactly (R18.7); membership in ROOT_POWER_DIMENSIONS cannot go stale (R18.8) and the table has no entry written twice (R18.9); a pickle hook on Logarithm/LogarithmicUnit covers its interning key (R18.10); Level.__init__ keeps what it is given (R18.11); Prefix.quantify is base**exponent (R11.2, shared). prefix * logarithm keeps the base and multiplies the prefixes: log-values add on every arm with Prefix.__mul__ interpreted (R18.12).",
         "design_ref": "DESIGN.md section 4, C18",
         "level_note": E4_NOTE + " Axiom: in_unit value-preserving (C04). Not decided: floating-point rounding.",
     },
     "C06": {
         "engine": "E1+E4",
         "technique": "abstract interpretation: physical-value normal forms of + - * / ** and of the magnitudes compared in __eq__/__lt__ (under their path conditions), relative to the in_unit axiom; layering rule on prefix arithmetic",
-        "level_text": "If every operator's result has the physical value of the operation applied to the operands' physical values, re-expressing an operand cannot change the result. Decided for all operands at once as identities of normal forms; the comparison operators are shown to compare the operands' own physical values in one unit and to return exactly that comparison on every path (no constant shortcut, no tolerance); value fields of the shared value objects are assigned only by their constructors (R06.6); Quantity.__init__ stores what it is given (R03.7), the tables are keyed by unprefixed units (R05.1) and the planner's exchanged steps are turned round (R05.9). number/quantity (__rtruediv__) is a known finding, hence 'other'.",
+        "level_text": "If every operator's result has the physical value of the operation applied to the operands' physical values, re-expressing an operand cannot change the result. Decided for all operands at once as identities of normal forms; the comparison operators are shown to compare the operands' own physical values in one unit and to return exactly that comparison on every path (no constant shortcut, no tolerance); value fields of the shared value objects are assigned only by their constructors (R06.6); Quantity.__init__ stores what it is given (R03.7), the tables are keyed by unprefixed units (R05.1) and the planner's exchanged steps are turned round (R05.9). number/quantity (__rtruediv__) is a known finding, hence 'other'. The planner stages a mixed-unit + or == goes through keep each step's own ratio and order (R05.10) and apply each factor with the sign of the dimension it is filed under (R05.11), shared with C05.",
         "design_ref": "DESIGN.md section 4, C06",
         "level_note": E4_NOTE + " Proved relative to the in_unit axiom (C04). Not decided: rounding ties.",
     },
     "C12": {
         "engine": "E1+E4+E7",
         "technique": "order-domain evaluation: the overlap predicate is extracted from the AST and evaluated on every weak ordering of the four interval bounds; dispatch matrix of the three __eq__ methods resolved through their isinstance arms and Python's reflected fallback; field-normalisation contradiction rule for __hash__; operator-consistency rule on ordering methods; comparison normal forms shared with C06",
-        "level_text": "Symmetry of Measurement equality is decided exhaustively over all 26 admissible weak orders (finite and complete: the predicate touches its arguments only through comparisons); for each of the 9 ordered type pairs both directions reduce to the same predicate on the same normalised operands; ordering methods use their own operator on every path; == and < compare physical values and return that exact comparison (C06); a subclass overriding a comparison must treat both operands alike (R12.7); an uncertainty is never converted as a point on the scale (R12.8); value objects carry no cached state such as a memoised hash (R06.6). Quantity.__hash__ hashes fields that __eq__ normalises - a genuine defect pinned by the suite, recorded as a known finding, hence 'other'.",
+        "level_text": "Symmetry of Measurement equality is decided exhaustively over all 26 admissible weak orders (finite and complete: the predicate touches its arguments only through comparisons); for each of the 9 ordered type pairs both directions reduce to the same predicate on the same normalised operands; ordering methods use their own operator on every path; == and < compare physical values and return that exact comparison (C06); a subclass overriding a comparison must treat both operands alike (R12.7); an uncertainty is never converted as a point on the scale (R12.8); value objects carry no cached state such as a memoised hash (R06.6). Quantity.__hash__ hashes fields that __eq__ normalises - a genuine defect pinned by the suite, recorded as a known finding, hence 'other'. The conversion behind a mixed-unit comparison applies each factor with the sign of the dimension it is filed under (R05.11, shared with C05).",
         "design_ref": "DESIGN.md section 4, C12",
         "level_note": E4_NOTE + " Not decided: trichotomy / sorted() numerically at floating-point ties; overlap equality is not transitive by design.",
     },
@@ -113,7 +113,7 @@ CHECKS = {
     "C15": {
         "engine": "E1+E6+E5",
         "technique": "structural agreement rules between sibling codecs (__getnewargs_ex__ vs __new__ key parameters; __json__ keys vs __from_json__ reads; tag dispatch table; Decimal writer/reader pairing; pickle hook inventory) + the formatter-language inclusion of C13 at the serialisation sites",
-        "level_text": "Writer and reader of each representation are compared as tables extracted from the AST: keys, tags, positions and type conversions must agree, nothing may route a Quantity's unit through text for pickle/copy, the Dimension/Prefix decoders must rebuild from the encoded structural key on every path (R15.7), and no encoder/decoder may be memoised over values whose equality ignores the magnitude type or over the registries (R15.9, R15.10); codecs_installed sets and restores each implicit json hook (R15.11); no decoder writes a registry (R15.12); every interned class with a pickle hook passes all of its interning arguments (R15.1). The stored unit text is str(unit); its language is checked against the parser (three known findings inherited from C13 R13.3 and seven from the symbol-table rule R15.8 = C13 R13.2: a quantity in centi-days decodes as candela; hence 'other').",
+        "level_text": "Writer and reader of each representation are compared as tables extracted from the AST: keys, tags, positions and type conversions must agree, nothing may route a Quantity's unit through text for pickle/copy, the Dimension/Prefix decoders must rebuild from the encoded structural key on every path (R15.7), and no encoder/decoder may be memoised over values whose equality ignores the magnitude type or over the registries (R15.9, R15.10); codecs_installed sets and restores each implicit json hook (R15.11); no decoder writes a registry (R15.12); every interned class with a pickle hook passes all of its interning arguments (R15.1). The stored unit text is str(unit); its language is checked against the parser (three known findings inherited from C13 R13.3 and seven from the symbol-table rule R15.8 = C13 R13.2: a quantity in centi-days decodes as candela; hence 'other'). The pydantic schema hands the wire form to the library's own decoder and encoder with no converting pydantic schema in between (R15.13).",
         "design_ref": "DESIGN.md section 4, C15",
         "level_note": "Trusted: CPython's pickle/copy/json protocols; E5 tables (every base unit is named). Not decided: equality of decoded float magnitudes; third-party serializers.",
     },
@@ -134,7 +134,7 @@ CHECKS = {
     "C11": {
         "engine": "E1+E4+E5",
         "technique": "abstract interpretation of Prefix/Unit operators (prefix component, log-value identities), value-preservation normal forms for quantify/unprefixed, def-use rule on convert/_plan_conversion, declared-prefix table from E5",
-        "level_text": "m*(p*u) = (m*value(p))*u, (p*u)**n = p**n*u**n, same-base exponent arithmetic, identity neutrality and prefix stripping are decided as identities of normal forms for all operands; the declared prefixes are enumerated exhaustively.",
+        "level_text": "m*(p*u) = (m*value(p))*u, (p*u)**n = p**n*u**n, same-base exponent arithmetic, identity neutrality and prefix stripping are decided as identities of normal forms for all operands; the declared prefixes are enumerated exhaustively. The text form means the unit (R11.6): a symbolic walk of formatting._unit_to_magnitude_and_terms in log-space shows leading magnitude x prod (prefix_i symbol_i)^e_i = prefix x factors on every path, and every renderer folds the magnitude in by multiplication.",
         "design_ref": "DESIGN.md section 4, C11",
         "level_note": E4_NOTE + " Not decided: the 1e-9 bound for mixed SI/IEC prefixes (floating point).",
     },
@@ -148,14 +148,14 @@ CHECKS = {
     "C08": {
         "engine": "E1+E2",
         "technique": "effect analysis: transitive (context-pruned) read sets of memoised functions vs writers of module-level tables and registries, with CFG check that each writer invalidates after writing; who-may-write; alias-taint analysis for in-place mutation of memoised results; determinism lint",
-        "level_text": "History independence reduces to: every memo is over immutable inputs or is invalidated by every writer of what it reads; nothing but equate/translate writes the tables; queries keep no other state; cached objects are never mutated in place; no address-dependent iteration. All rules are armed over resolved structure and discharged after one fix: commit (cache invalidation); memo keys must not conflate numeric types (R08.6); nothing changes the decimal context (R08.7) and in_unit is convert(self, unit) with nothing around it (R05.7).",
+        "level_text": "History independence reduces to: every memo is over immutable inputs or is invalidated by every writer of what it reads; nothing but equate/translate writes the tables; queries keep no other state; cached objects are never mutated in place; no address-dependent iteration. All rules are armed over resolved structure and discharged after one fix: commit (cache invalidation); memo keys must not conflate numeric types (R08.6); nothing changes the decimal context (R08.7) and in_unit is convert(self, unit) with nothing around it (R05.7). A helper that clears the caches counts as an invalidation only for the caches it clears on every path to its normal exit (a conditional clear is none).",
         "design_ref": "DESIGN.md section 4, C08",
         "level_note": "Trusted: mypy call resolution, functools.lru_cache semantics. Intern tables (_known) are exempt by kind (append-only, idempotent). Not decided: bit-identical floating-point results across processes.",
     },
     "C09": {
         "engine": "E5",
         "technique": "partial evaluation of the declaration DSL from the AST in exact rational arithmetic + multiplicative Gaussian elimination (every cycle of the definition graph) + graph reachability under the planner's decomposition rules (anchors verified in the source)",
-        "level_text": "Every declared equivalence of every shipped module is evaluated from source text in exact arithmetic; every dependent equation (= every cycle, also through compound units) must close within 1e-5 x degree, every base unit must be determined by the equations and the SI anchors, and every named unit must satisfy a necessary condition for the planner to reach SI that is derived from three facts re-verified in conversions.py (paths join whole units; a unit is decomposed only through its own larger equivalence and never in a base dimension): R09.7 found Donkeypower stranded (one fix: commit). Exhaustive over the shipped configuration, which is the property's whole quantifier; one genuine inconsistency (TonOfRefrigeration) is pinned by the tests and listed as a known finding, hence 'other' rather than 'proof'.",
+        "level_text": "Every declared equivalence of every shipped module is evaluated from source text in exact arithmetic; every dependent equation (= every cycle, also through compound units) must close within 1e-5 x degree, every base unit must be determined by the equations and the SI anchors, and every named unit must satisfy a necessary condition for the planner to reach SI that is derived from three facts re-verified in conversions.py (paths join whole units; a unit is decomposed only through its own larger equivalence and never in a base dimension): R09.7 found Donkeypower stranded (one fix: commit). Exhaustive over the shipped configuration, which is the property's whole quantifier; one genuine inconsistency (TonOfRefrigeration) is pinned by the tests and listed as a known finding, hence 'other' rather than 'proof'. One and the dimensionless SI units (radian, steradian) are worth 1 - SI defines them so and the planner sheds them without a step (anchor F4, re-verified) - so an equation that would give one of them another size is a dependent equation with a residual; when _cancel_factors emits steps for a left-over dimensionless factor instead, a named compound containing one (lumen, lux) needs a declared path from that factor to One (R09.7).",
         "design_ref": "DESIGN.md section 4, C09",
         "level_note": "Trusted: E5's model of Unit.equals / Dimension.scale / operator semantics (sa/decl.py); literal text is the intended exact value. Not decided: that the planner finds a route for every unit passing the necessary condition R09.7, and the value it computes (C04).",
     },
